@@ -172,7 +172,20 @@ package parser
 //@     invariant [C06:movkey-inv] $i <= len(movements) && sb.pieces == MKeyPcs(movements, $i) && sb.markers == nopieces()
 //@ end
 
+// statement-level parse functions only move the token window (and the lexer behind it), the break/continue
+// stacks and the lazily loaded font table: in particular the hoisting tables, the constant table and the
+// collected top-level texts are out of their reach (C12: an unselected poryswitch case leaves nothing behind)
 //@ func ParseFrame
+//@   nobody
+//@   params p
+//@   requires [C18:pstate] PState(p)
+//@   modifies p.curToken, p.peekToken, p.peek2Token, p.peek3Token, p.peek4Token, p.breakStack, p.continueStack, p.fonts, fields(p.l)
+//@   ensures [C18:pstate] PState(p) && PSame(p, old(p.l), old(p.l.input)) && PMaps(p, old(p.constants), old(p.inlineTextsSet), old(p.inlineTextCounts), old(p.inlineMovementsSet), old(p.inlineMovementCounts))
+//@   loopinv [C18:pstate-inv] PState(p) && PSame(p, old(p.l), old(p.l.input)) && PMaps(p, old(p.constants), old(p.inlineTextsSet), old(p.inlineTextCounts), old(p.inlineMovementsSet), old(p.inlineMovementCounts))
+//@ end
+
+// top-level statements also record texts, hoisted definitions and constants
+//@ func TopFrame
 //@   nobody
 //@   params p
 //@   requires [C18:pstate] PState(p)
@@ -204,14 +217,14 @@ package parser
 //@ end
 
 //@ func (p *Parser) parseTopLevelStatement
-//@   include ParseFrame
+//@   include TopFrame
 //@   modifies fields(p.constants), fields(p.inlineTextsSet), fields(p.inlineTextCounts), fields(p.inlineMovementsSet), fields(p.inlineMovementCounts), allof(ast.CommandStatement.Args)
 //@   ensures [C20:stack-balanced] result1 == nil ==> (SameStack(p.breakStack, old(p.breakStack)) && SameStack(p.continueStack, old(p.continueStack)))
 //@   loopinv [C20:stack-balanced-inv] SameStack(p.breakStack, old(p.breakStack)) && SameStack(p.continueStack, old(p.continueStack))
 //@ end
 
 //@ func (p *Parser) addImplicitData
-//@   include ParseFrame
+//@   include TopFrame
 //@   requires [C06:slot] ImpOK(implicitData)
 //@   ensures [C20:stack-balanced] SameStack(p.breakStack, old(p.breakStack)) && SameStack(p.continueStack, old(p.continueStack))
 //@   loopinv [C20:stack-balanced-inv] SameStack(p.breakStack, old(p.breakStack)) && SameStack(p.continueStack, old(p.continueStack))
@@ -219,7 +232,7 @@ package parser
 //@ end
 
 //@ func (p *Parser) addImplicitTexts
-//@   include ParseFrame
+//@   include TopFrame
 //@   ensures [C06:args-len] forall c *ast.CommandStatement :: {c.Args} len(c.Args) == old(len(c.Args))
 //@   loopinv [C06:args-len-inv] forall c *ast.CommandStatement :: {c.Args} len(c.Args) == old(len(c.Args))
 //@   loopinv [C06:slot-inv] forall k int :: {texts[k]} (0 <= k && k < len(texts)) ==> TextSlotOK(texts[k])
@@ -230,7 +243,7 @@ package parser
 //@ end
 
 //@ func (p *Parser) addImplicitMovements
-//@   include ParseFrame
+//@   include TopFrame
 //@   ensures [C06:args-len] forall c *ast.CommandStatement :: {c.Args} len(c.Args) == old(len(c.Args))
 //@   loopinv [C06:args-len-inv] forall c *ast.CommandStatement :: {c.Args} len(c.Args) == old(len(c.Args))
 //@   loopinv [C06:slot-inv] forall k int :: {movements[k]} (0 <= k && k < len(movements)) ==> MoveSlotOK(movements[k])
@@ -296,7 +309,7 @@ package parser
 //@ end
 
 //@ func (p *Parser) parseTextStatement
-//@   include ParseFrame
+//@   include TopFrame
 //@   ensures [C20:stack-balanced] result1 == nil ==> (SameStack(p.breakStack, old(p.breakStack)) && SameStack(p.continueStack, old(p.continueStack)))
 //@   loopinv [C20:stack-balanced-inv] SameStack(p.breakStack, old(p.breakStack)) && SameStack(p.continueStack, old(p.continueStack))
 //@ end
@@ -506,7 +519,7 @@ package parser
 //@ end
 
 //@ func (p *Parser) parseConstant
-//@   include ParseFrame
+//@   include TopFrame
 //@   modifies fields(p.constants), fields(p.inlineTextsSet), fields(p.inlineTextCounts), fields(p.inlineMovementsSet), fields(p.inlineMovementCounts), allof(ast.CommandStatement.Args)
 //@   ensures [C20:stack-balanced] result0 == nil ==> (SameStack(p.breakStack, old(p.breakStack)) && SameStack(p.continueStack, old(p.continueStack)))
 //@   loopinv [C20:stack-balanced-inv] SameStack(p.breakStack, old(p.breakStack)) && SameStack(p.continueStack, old(p.continueStack))
